@@ -773,8 +773,9 @@ pub fn finish(m: &Model, r: &mut Rng, buf: Vec<u8>, le: bool, steps: Vec<Step>) 
     History { buf, le, steps, final_drops }
 }
 
-pub fn gen_random(r: &mut Rng, max_steps: usize) -> History {
-    let buf = gen_buffer(r);
+pub fn gen_random(r: &mut Rng, max_steps: usize, max_buf: usize) -> History {
+    let mut buf = gen_buffer(r);
+    buf.truncate(max_buf);
     let le = r.bool();
     let n = 1 + r.usize(max_steps.max(1));
     let mut steps = vec![];
